@@ -11,7 +11,7 @@ TYPES12 = [ag.INT, ag.BOOL, ag.BYTES, ag.VOID, ag.DATA, ag.TList(ag.INT), ag.TOp
            ag.TAdt("Box", ag.TOption(ag.BOOL)), ag.TAdt("Either", ag.TAdt("Point"), ag.TList(ag.BOOL)), ag.TList(ag.TOption(ag.INT)),
            ag.TPair(ag.TAdt("Color"), ag.TList(ag.INT)), ag.TList(ag.TPair(ag.BYTES, ag.TAdt("Shape"))),
            ag.TAdt("Tagged"), ag.TAdt("Wrap", ag.INT), ag.TAdt("Wrap", ag.BYTES), ag.TOption(ag.TAdt("Tagged")), ag.TAdt("Inner", ag.TAdt("Color")),
-           ag.TAdt("Rec5"), ag.TList(ag.TAdt("Rec5"))]
+           ag.TAdt("Rec5"), ag.TList(ag.TAdt("Rec5")), ag.TAdt("RecL"), ag.TList(ag.TAdt("RecL")), ag.TOption(ag.TAdt("RecL"))]
 
 
 def norm_schema(s):
